@@ -188,6 +188,55 @@ fn e(v: V) -> Elem {
     Elem::new(v)
 }
 
+/// Store `v` in limit source `i` (already reduced modulo the number of sources). Returns the value
+/// that is announced by this, if any (`set_if_not_eq` with an equal value announces nothing).
+pub(super) fn limit_set(limits: &mut Limits, env: &Env, i: usize, v: usize, if_not_eq: bool) -> Option<usize> {
+    let src = &mut limits.sources[i];
+    let mut announce = None;
+    if let Some(obs) = src.obs.as_mut() {
+        if if_not_eq {
+            if Observable::set_if_not_eq(obs, v).is_some() {
+                announce = Some(v);
+            } else {
+                env.borrow_mut().counters.inc("fault.F7_limit_unchanged_reannounced");
+            }
+        } else {
+            Observable::set(obs, v);
+            announce = Some(v);
+        }
+    } else if let Some(sc) = &src.script {
+        let wk = {
+            let mut s = sc.borrow_mut();
+            s.queue.push_back(v);
+            s.waker.take()
+        };
+        if let Some(wk) = wk {
+            wk.wake();
+        }
+        announce = Some(v);
+    }
+    src.value = v;
+    env.borrow_mut().counters.inc("ops.limit_set");
+    announce
+}
+
+/// Record that source `i` has announced `v`. Once the stream a stage reads from has ended, a later
+/// limit is optional for it; so is — until that poll has returned — a limit announced while the
+/// stage's consumer (`polling`) is in the middle of a poll (F8): the stage may already have polled
+/// its limit stream in this poll; the wake-up makes sure it is polled again.
+pub(super) fn limit_announce(limits: &mut Limits, i: usize, v: usize, polling: Option<usize>) {
+    for w in limits.writers.iter_mut().filter(|w| w.src == i) {
+        if w.tap.borrow().input_ended {
+            w.late = Some(v);
+        } else if polling == Some(w.consumer) {
+            w.during_poll = Some(v);
+        } else {
+            w.announced = Some(v);
+            w.during_poll = None;
+        }
+    }
+}
+
 impl Rest {
     fn violate(&self, ps: &[&str], oracle: &str, stage: i32, detail: String) {
         let mut w = self.env.borrow_mut();
@@ -564,6 +613,9 @@ impl Rest {
                 if w.late.is_some() && w.late != w.announced {
                     v.push(w.late);
                 }
+                if w.during_poll.is_some() && !v.contains(&w.during_poll) {
+                    v.push(w.during_poll);
+                }
                 v
             }
         }
@@ -724,6 +776,9 @@ impl Rest {
             wake::fresh()
         };
         let mut cx = Context::from_waker(&wk);
+        // (F8: the writer may touch the limit sources from inside this poll; the pointer is taken
+        // here, right before the stream is polled, and dropped right after)
+        super::preempt::set_limits(&mut self.limits as *mut Limits, self.consumers[j].id);
         let c = &mut self.consumers[j];
         c.polls += 1;
         c.ever_polled = true;
@@ -731,6 +786,7 @@ impl Rest {
             Outer::Plain(s) => s.as_mut().poll_next(&mut cx).map(|o| o.map(|_| ())),
             Outer::Batched(s) => s.as_mut().poll_next(&mut cx).map(|o| o.map(|_| ())),
         }));
+        super::preempt::clear_limits();
         if self.promote(j) {
             return;
         }
@@ -884,42 +940,18 @@ impl Rest {
             _ => unreachable!(),
         };
         let i = i % self.limits.sources.len();
-        let src = &mut self.limits.sources[i];
-        if !src.alive {
+        if !self.limits.sources[i].alive {
             return;
         }
         self.producer_steps += 1;
         let mut announce: Option<usize> = None;
         match set {
             Some((v, if_not_eq)) => {
-                if let Some(obs) = src.obs.as_mut() {
-                    if if_not_eq {
-                        if Observable::set_if_not_eq(obs, v).is_some() {
-                            announce = Some(v);
-                        } else {
-                            self.env.borrow_mut().counters.inc("fault.F7_limit_unchanged_reannounced");
-                        }
-                    } else {
-                        Observable::set(obs, v);
-                        announce = Some(v);
-                    }
-                } else if let Some(sc) = &src.script {
-                    let wk = {
-                        let mut s = sc.borrow_mut();
-                        s.queue.push_back(v);
-                        s.waker.take()
-                    };
-                    if let Some(wk) = wk {
-                        wk.wake();
-                    }
-                    announce = Some(v);
-                }
-                src.value = v;
-                self.env.borrow_mut().counters.inc("ops.limit_set");
+                announce = limit_set(&mut self.limits, &self.env, i, v, if_not_eq);
             }
             None => {
-                src.alive = false;
-                if let Some(obs) = src.obs.take() {
+                self.limits.sources[i].alive = false;
+                if let Some(obs) = self.limits.sources[i].obs.take() {
                     // An eyeball subscriber reports the end of its stream as soon as the observable
                     // is gone, even if it has not yet observed the last update (C03: the end takes
                     // priority). A limit stored but never yielded by the limit stream was never
@@ -935,7 +967,7 @@ impl Rest {
                         }
                     }
                     drop(obs);
-                } else if let Some(sc) = &src.script {
+                } else if let Some(sc) = &self.limits.sources[i].script {
                     let wk = {
                         let mut s = sc.borrow_mut();
                         s.closed = true;
@@ -950,14 +982,7 @@ impl Rest {
             }
         }
         if let Some(v) = announce {
-            // (once the stream a stage reads from has ended, a later limit is optional for it)
-            for w in self.limits.writers.iter_mut().filter(|w| w.src == i) {
-                if w.tap.borrow().input_ended {
-                    w.late = Some(v);
-                } else {
-                    w.announced = Some(v);
-                }
-            }
+            limit_announce(&mut self.limits, i, v, None);
         }
         self.audit_armed();
     }
@@ -1515,12 +1540,23 @@ impl Rest {
             env: self.env.clone(),
             fired: false,
             applied: 0,
+            limit_sets: 0,
             dropped: false,
             panicked: None,
         });
         self.poll_consumer(j);
         let a = super::preempt::disarm();
         self.env.borrow_mut().poll_floor = None;
+        // what was announced during the poll is from now on the latest limit announced
+        for w in self.limits.writers.iter_mut() {
+            if let Some(v) = w.during_poll.take() {
+                if w.tap.borrow().input_ended {
+                    w.late = Some(v);
+                } else {
+                    w.announced = Some(v);
+                }
+            }
+        }
         let Some(a) = a else { return };
         if !a.fired {
             self.count("probe.preemption_point_not_reached");
@@ -1528,6 +1564,9 @@ impl Rest {
         }
         self.count("fault.F8_writer_ran_inside_a_poll");
         self.faults_fired += 1;
+        if a.limit_sets > 0 {
+            self.count("probe.limit_set_inside_a_poll");
+        }
         self.producer_steps += a.applied as u64;
         self.model = self.env.borrow().contents.clone();
         if as_tx && a.applied > 0 {
